@@ -214,7 +214,12 @@ func (c *Cache) Exec(ctx context.Context, qCtx *query_context.Context, next sequ
 
 	err := next.ExecNext(ctx, qCtx)
 
-	if r := qCtx.R(); r != nil && cachedResp != r && answersQuestion(r, question) { // pointer compare. r is not cachedResp
+	// Only a miss stores what the chain came back with. After a hit the entry
+	// is still valid (a stale one is being refreshed in the background), and the
+	// response in qCtx may be cachedResp itself or a copy of it that a later
+	// plugin made (dual_selector and fallback work on copies of qCtx): storing
+	// that again would restart the age of an answer that was not fetched again.
+	if r := qCtx.R(); r != nil && cachedResp == nil && answersQuestion(r, question) {
 		saveRespToCache(msgKey, r, c.backend, c.args.LazyCacheTTL)
 		c.updatedKey.Add(1)
 	}
